@@ -17,7 +17,8 @@ CONSTANTS
     Conns, W, Hashes, Keys, MaxScrape, KeepAlive,
     ScrapeLists,
     TruncateFirst,   \* TRUE: cut a scrape to MaxScrape hashes before partitioning it by worker
-    BlankFirst       \* TRUE: blank the digit field before writing the new length (negative control: FALSE)
+    BlankFirst,      \* TRUE: blank the digit field before writing the new length (negative control: FALSE)
+    MaxReq           \* requests per connection (keeps the model finite without a state constraint)
 
 VARIABLES phase, parts, cur, queue, store, ref, pend, hdr, sent, issued, expect
 vars == <<phase, parts, cur, queue, store, ref, pend, hdr, sent, issued, expect>>
@@ -66,7 +67,7 @@ Init ==
 
 (* the client writes a request in n TCP segments, only after the previous reply has arrived *)
 Send(c, req, n) ==
-    /\ phase[c] = "idle"
+    /\ phase[c] = "idle" /\ Len(issued[c]) < MaxReq
     /\ phase' = [phase EXCEPT ![c] = "reading"]
     /\ parts' = [parts EXCEPT ![c] = n]
     /\ cur' = [cur EXCEPT ![c] = req]
